@@ -85,6 +85,7 @@ def term_zoo():
     add("Negative", 1, lambda f: -f[0])
     add("ValueWrapper", 0, lambda f: T.ValueWrapper(5))
     add("ValueWrapper.str", 0, lambda f: T.ValueWrapper("v"))
+    add("ValueWrapper.np", 0, lambda f: T.ValueWrapper(7, allow_parametrize=False))
     add("JSON", 0, lambda f: T.JSON({"k": [1, "x"]}))
     add("Values", 1, lambda f: T.Values(f[0]))
     add("LiteralValue", 0, lambda f: T.LiteralValue("CURRENT_USER"))
